@@ -868,6 +868,9 @@ func createAssociationFromConfigWithTsn(cfg *Config, tsn uint32) *Association {
 
 	assoc.rack.rackReoWndFloor = cfg.rack.rackReoWndFloor // optional floor; usually 0
 	assoc.rackKeepInflatedRecoveries = 0
+	// Reordering detection compares delivered TSNs against this high-water mark with
+	// serial arithmetic, so it must start just below our first TSN rather than at 0.
+	assoc.rackHighestDeliveredOrigTSN = tsn - 1
 
 	if assoc.name == "" {
 		assoc.name = fmt.Sprintf("%p", assoc)
